@@ -36,10 +36,11 @@ fn opt<T, F: Fn(T) -> Value>(o: Option<T>, f: F) -> Value {
         None => none(),
     }
 }
-// a position / count; negative numbers encode positions near usize::MAX (-1 = usize::MAX, -2 = usize::MAX - 1, ...):
+// a position / count; negative numbers encode huge values (-1 = usize::MAX, -2 = usize::MAX - 1, ...; -1000 - k = (k + 1) * 2^32):
 // the trace specification cannot hold 64-bit numbers
 fn us(v: &Value) -> usize {
     match v.as_i64() {
+        Some(x) if x <= -1000 => ((-x - 999) as usize) << 32,     // -1000 = 2^32, -1001 = 2 * 2^32, ...
         Some(x) if x < 0 => usize::MAX - ((-x - 1) as usize),
         _ => v.as_u64().unwrap_or(0) as usize,
     }
